@@ -666,7 +666,7 @@ func main() {
 		"negative sizes are outside the domain")
 	r.MinShapes(40)
 
-	seqCases := r.N(6000, 120000)
+	seqCases := r.N(6000, 80000)
 	seqOps := r.N(60, 120)
 	concCases := r.N(400, 6000)
 	histPerCase := r.N(10, 20)
